@@ -95,7 +95,7 @@ For each trees in the compared tree file, it will print tab separated values wit
 				for st := range stats2 {
 					if st.Err != nil {
 						/* We empty the channel if needed*/
-						for range stats {
+						for range stats2 {
 						}
 						io.LogError(st.Err)
 						return st.Err
